@@ -28,7 +28,7 @@ ASSUMPTIONS = [
     "implicit rules, no filter ACL; storage stub only provides flush_perf()",
     "two generators sharing a parent block must both mark it cant_delete, otherwise the shared parent itself is a conflict",
 ]
-BUDGET = {"quick": 60, "thorough": 900}
+BUDGET = {"quick": 120, "thorough": 900}
 PREFIX = "undo"
 
 ROWS = ["a", "b x", "c", "d 1"]     # block heads add: "d 0" (numeric zero token)
@@ -134,6 +134,9 @@ def acl_list():
         ("leafs", lambda: [ARule("a", cant_delete=True), ARule("c"), ARule("d *")]),
         ("leafs-cd", lambda: [ARule("a", cant_delete=True), ARule("c", cant_delete=True), ARule("d *", cant_delete=True)]),
         ("empty", lambda: []),
+        # one generator with two rules matching the row 'a': a protected specific rule and a deletable catch-all
+        # (a generator may delete a row when ANY of its matching rules allows it)
+        ("a-cd+any", lambda: [ARule("a", [ARule("c")], cant_delete=True), ARule("~", [ARule("c")])]),
     ]
 
 
@@ -158,6 +161,7 @@ def device():
         d = Dev()
         d.__dict__.update(env.device("huawei").__dict__)
         d.storage = Storage()
+        d.hw = env.HwVendorCached(d.hw)
         d.tags = []
         _dev = d
     return _dev
@@ -256,7 +260,7 @@ def ref_outcome(specs):
     return ("ok", refacl.ref_filter(merged_lvl, union, PREFIX))
 
 
-BASE_INDENT = {"all": 8, "a-block": 12, "a-block-del": 8, "a-any": 4, "b-only": 12, "leafs": 8, "leafs-cd": 12, "empty": 0}
+BASE_INDENT = {"all": 8, "a-block": 12, "a-block-del": 8, "a-any": 4, "b-only": 12, "leafs": 8, "leafs-cd": 12, "empty": 0, "a-cd+any": 8}
 
 
 def indent_text(text, n):
@@ -285,8 +289,8 @@ def judge(specs, report):
 # ---------------------------------------------------------------------------------------------------
 def bound_text(tier):
     if tier == "quick":
-        return "1 generator: all programs <= 3 nodes x 8 ACLs; 2 generators: all program pairs (<=2,<=1) and (<=1,<=2) nodes x 16 ACL pairs; 3 generators: programs <= 1 node x 8 ACL triples"
-    return "1 generator: all programs <= 4 nodes x 8 ACLs; 2 generators: all program pairs <= 2 nodes x 22 ACL pairs; 3 generators: programs <= 2 nodes x 27 ACL triples"
+        return "1 generator: all programs <= 3 nodes x 9 ACLs; 2 generators: all program pairs (<=2,<=1) and (<=1,<=2) nodes x 20 ACL pairs; 3 generators: programs <= 1 node x 8 ACL triples"
+    return "1 generator: all programs <= 4 nodes x 9 ACLs; 2 generators: all program pairs <= 2 nodes x 28 ACL pairs; 3 generators: programs <= 2 nodes x 27 ACL triples"
 
 
 def setup():
@@ -295,7 +299,8 @@ def setup():
 
 ACL_PAIRS_Q = [("all", "all"), ("all", "leafs"), ("a-block", "a-block"), ("a-block", "a-block-del"), ("a-block-del", "a-block-del"),
                ("a-any", "a-block"), ("leafs", "leafs"), ("leafs", "leafs-cd"), ("leafs-cd", "leafs-cd"), ("b-only", "a-block"),
-               ("a-block", "leafs"), ("a-any", "all"), ("empty", "all"), ("a-block", "b-only"), ("leafs-cd", "a-block"), ("a-any", "a-any")]
+               ("a-block", "leafs"), ("a-any", "all"), ("empty", "all"), ("a-block", "b-only"), ("leafs-cd", "a-block"), ("a-any", "a-any"),
+               ("a-cd+any", "a-block-del"), ("a-block-del", "a-cd+any"), ("a-cd+any", "a-block"), ("a-cd+any", "a-cd+any")]
 
 
 def blocks(tier, seed):
